@@ -77,6 +77,7 @@ func (e *Exec) RunFunction(fn *ssa.Function) (err error) {
 	}
 	e.entry = st.clone()
 	if c := e.contractOf(fn); c != nil {
+		e.mustDefer(fn, st, c)
 		e.lemmas(fr, st, c)
 		e.assumeRequires(fr, st, c)
 	}
@@ -739,6 +740,31 @@ func (e *Exec) loopInvariants(fr *Frame, h *ssa.BasicBlock, phis []*ssa.Phi, ini
 			}
 		}
 	}
+	// a slice that grows by one element per iteration of a counting loop
+	for pi, sp := range phis {
+		sp := sp
+		si, ok := initVals[sp].(*Term)
+		if !ok || si.Sort != SSl {
+			continue
+		}
+		sname := sp.Comment
+		if sname == "" {
+			sname = fmt.Sprintf("phi%d", pi)
+		}
+		for _, ip := range phis {
+			ip := ip
+			if _, ok := intInfoOf(ip.Type()); !ok || ip.Comment == "" {
+				continue
+			}
+			ii, ok := initVals[ip].(*Term)
+			if !ok {
+				continue
+			}
+			add("len("+sname+")-"+ip.Comment+"==init", true, func(v map[*ssa.Phi]Value, st *State) *Term {
+				return Eq(Sub(App(SInt, "sl-len", v[sp].(*Term)), v[ip].(*Term)), Sub(App(SInt, "sl-len", si), ii))
+			})
+		}
+	}
 	// pairs of integer phis: sum / difference is constant
 	var ints []*ssa.Phi
 	for _, phi := range phis {
@@ -1084,5 +1110,47 @@ func (e *Exec) lemmas(fr *Frame, st *State, c *Contract) {
 			en.vars[lm.Var] = ev{IntLit(int64(v)), nil}
 			e.oblige(st, "lemma", fmt.Sprintf("%s[%d]", lm.Label, v), e.evalClause(en, &Clause{Text: lm.Text, Expr: lm.Expr}), "")
 		}
+	}
+}
+
+// mustDefer: structural obligation — the named callee is registered with
+// defer (directly or inside a deferred closure of this function) and is never
+// called on the normal path only; this is what makes a release / cleanup run
+// on a panicking exit, which the executor does not explore.
+func (e *Exec) mustDefer(fn *ssa.Function, st *State, c *Contract) {
+	for _, name := range c.MustDefer {
+		deferred, plain := 0, 0
+		var scan func(f *ssa.Function, inDefer bool)
+		scan = func(f *ssa.Function, inDefer bool) {
+			for _, b := range f.Blocks {
+				for _, in := range b.Instrs {
+					switch x := in.(type) {
+					case *ssa.Defer:
+						if calleeName(&x.Call) == name {
+							deferred++
+						}
+						if mc, ok := x.Call.Value.(*ssa.MakeClosure); ok {
+							if cf, ok := mc.Fn.(*ssa.Function); ok {
+								scan(cf, true)
+							}
+						}
+					case *ssa.Call:
+						if calleeName(&x.Call) == name {
+							if inDefer {
+								deferred++
+							} else {
+								plain++
+							}
+						}
+					}
+				}
+			}
+		}
+		scan(fn, false)
+		g := True
+		if deferred == 0 || plain > 0 {
+			g = False
+		}
+		e.oblige(st, "must-defer", name, g, "")
 	}
 }
